@@ -19,7 +19,7 @@ pub const CONFIGS: &[&str] = &["builtin", "symbolic", "words"];
 pub fn config_ops(cfg: &str) -> Vec<(&'static str, &'static str)> {
     match cfg {
         "symbolic" => vec![("+++", "prefix"), ("**", "infix"), ("<=>", "infix"), ("=~", "infix"), ("!!", "postfix"), ("?:", "infix"), (":=", "infix"), ("??", "postfix")],
-        "words" => vec![("hi", "infix"), ("is_a", "infix"), ("~=", "infix"), ("is-not", "infix"), ("neg", "prefix"), ("§", "postfix")],
+        "words" => vec![("hi", "infix"), ("is_a", "infix"), ("~=", "infix"), ("is-not", "infix"), ("neg", "prefix"), ("§", "postfix"), ("startsWithAnyCaseInsensitive_v2", "infix")],
         _ => vec![],
     }
 }
@@ -27,7 +27,7 @@ pub fn config_ops(cfg: &str) -> Vec<(&'static str, &'static str)> {
 pub fn extra_fragments(cfg: &str) -> Vec<&'static str> {
     match cfg {
         "symbolic" => vec!["~"],
-        "words" => vec!["hi", "is_a", "~", "is", "neg", "§"],
+        "words" => vec!["hi", "is_a", "~", "is", "neg", "§", "startsWithAnyCaseInsensitive_v2", "startsWithAnyCaseInsensitive_v"],
         _ => vec![],
     }
 }
@@ -290,7 +290,7 @@ impl Prop for C10 {
             len: long_token_inputs(tier.pick(14, 17)).len() as u64,
             chunk: 200,
             timeout: Duration::from_secs(600),
-            what: "one long token per input (33 shapes x every length 1..70 and 2^k-1, 2^k, 2^k+1): spans, texts and kinds against the reference lexer".into(),
+            what: "one long token per input (38 shapes x every length 1..70 and 2^k-1, 2^k, 2^k+1): spans, texts and kinds against the reference lexer".into(),
         });
         Plan {
             stages,
